@@ -466,6 +466,56 @@ func (c *c17) Run(cs core.Case) core.Result {
 		}
 		r.Key("%s|%s|f=%d|b=%d", p.Fmt, v.name, len(set.Files), set.Blocks)
 	}
+	// A batch loop: the caller keeps ONE slice of relative input names and
+	// creates the same archive in several directories in turn (chdir between
+	// the calls). Every output must equal the reference, and the caller's
+	// slice must still hold what the caller put there.
+	if p.Fmt == "par2" || p.Fmt == "par1" {
+		var rel []string
+		for _, f := range set.Files {
+			rel = append(rel, filepath.FromSlash(f.Name))
+		}
+		relCopy := append([]string(nil), rel...)
+		for k := 0; k < 3; k++ {
+			top := filepath.Join(root, fmt.Sprintf("batch%d", k))
+			setDir := filepath.Join(top, "the set")
+			if _, err := set.Materialize(setDir); err != nil {
+				break
+			}
+			if os.Chdir(setDir) != nil {
+				break
+			}
+			var cerr error
+			pi := core.Protect(func() {
+				if p.Fmt == "par2" {
+					cerr = par2.Create("arch"+ext, rel, par2.CreateOptions{SliceByteCount: set.SliceSize, NumParityShards: set.Blocks, NumGoroutines: 2})
+				} else {
+					cerr = par1.Create("arch"+ext, rel, par1.CreateOptions{NumParityFiles: set.Blocks})
+				}
+			})
+			os.Chdir(origWd)
+			switch {
+			case pi != nil:
+				r.Violate("create-panic|"+pi.Frame, "batch call %d: %s", k, pi.Msg)
+			case cerr != nil:
+				r.Violate("create-failed|lib|batch-reuse-of-path-slice", "call %d of a batch loop that reuses one slice of relative names (now %q...): %v", k, rel[0], cerr)
+			default:
+				cf := createdFiles(setDir, inputs)
+				if d := scen.DiffSnap(ref, cf); len(d) > 0 {
+					r.Violate("create-output-varies|batch-reuse-of-path-slice", "call %d of a batch loop that reuses one slice of relative names: output differs from the reference: %v", k, d)
+				}
+			}
+			for i := range rel {
+				if rel[i] != relCopy[i] {
+					r.Violate("create-output-varies|caller-arguments-overwritten", "after call %d the caller's path slice holds %q where it had put %q", k, rel[i], relCopy[i])
+					copy(rel, relCopy)
+					break
+				}
+			}
+			os.RemoveAll(top)
+			r.Count("batch_calls", 1)
+		}
+	}
 	// The same set created by several goroutines at once (separate directories):
 	// every output must equal the reference.
 	if p.Seed%3 == 0 {
